@@ -50,6 +50,9 @@ type guardSpec struct {
 type exemption struct {
 	Kind string `json:"kind"`
 	Why  string `json:"why"`
+	// functions in which every access of the field is exempt (initialisation that
+	// happens before the goroutines reading the field are started)
+	Funcs []string `json:"funcs,omitempty"`
 }
 
 type config struct {
